@@ -238,6 +238,9 @@ def scenario(draw, tier="quick", dbs=None, finite=False, atoms_only=False, allow
         pack = draw(pack_desc(has_stats=bool(cls[4]), finite=finite, atoms_only=atoms_only,
                               allow_iterative=allow_iterative, allow_pack=allow_pack))
         db = draw(st.sampled_from(dbs or DBS))
+    call = draw(call_desc())
+    if call.get("smallest") and (len(cls[0]) >= 3 or draw(st.booleans())):
+        call["smallest"] = False  # the bounded DFS behind 'smallest' is exponential on big universes
     return {
         "class": cls,
         "compressed": draw(st.integers(0, 5)) == 0,
@@ -245,7 +248,7 @@ def scenario(draw, tier="quick", dbs=None, finite=False, atoms_only=False, allow
         "db": db,
         "expand_verified": True if template else draw(st.integers(0, 5)) == 0,
         "debug": draw(st.integers(0, 19)) == 0,
-        "call": draw(call_desc()),
+        "call": call,
         "clock": draw(clock_script),
         "rng": draw(st.integers(0, 2**16)),
     }
